@@ -2094,6 +2094,10 @@ class Client:
             raise UnexpectedResponseException(
                 response, 'ModeOfOperation echo does not match request. Received 0x%02x, Requested=0x%02x' % (response.service_data.moop_echo, moop))
 
+        if dfi is None and moop in [services.RequestFileTransfer.ModeOfOperation.AddFile, services.RequestFileTransfer.ModeOfOperation.ReplaceFile,
+                                    services.RequestFileTransfer.ModeOfOperation.ReadFile, services.RequestFileTransfer.ModeOfOperation.ResumeFile]:
+            dfi = services.RequestFileTransfer.normalize_data_format_identifier(dfi)    # The default value that has been transmitted
+
         if response.service_data.dfi is not None and dfi is not None:
             received = response.service_data.dfi.get_byte_as_int()
             expected = dfi.get_byte_as_int()
